@@ -1,7 +1,47 @@
 import AspireModel.Model.Session
 /-
-  C14 — the checkpoint file of an `Aspire` session stays self-consistent.
-  Model: `Model/Session.lean`.  Core Lean only.
+  C14 — "After any sequence of fitting, sampling, entering or leaving automatic checkpointing and resuming that
+  targets the same file, the proposal stored in the file is the one under which the stored checkpoint's particles
+  were weighted, and the stored configuration names the sampler that wrote that checkpoint, so that resuming from the
+  file never mixes a population with a different proposal."
+
+  Model: `Model/Session.lean` (`Aspire.fit`, `sample_posterior`, `auto_checkpoint`, `resume_from_file`).  Core Lean only.
+
+  The statement is FALSE of the current code at full strength (`consistent_after_any_sequence_false`).  What is proved:
+
+  * `consistent_partial` : `Safe ops → AllConsistent (srun {} ops)`, where `Safe ops` says that every step of the
+    run passes the guard `okStep` in the state it is applied to.  The guards are local and readable:
+      - `okFit`   : the target file holds no checkpoint, or the call neither replaces the proposal
+                    (`overwrite=False`) nor rewrites the configuration with a sampler other than SMC;
+      - `okSample`, run that writes a checkpoint (SMC, completed or interrupted after >= 1 checkpoints, proposal
+                    present): the configuration is written or already names SMC, and the proposal is written
+                    (`saved_flow` flag of the context not yet set) or the file already holds the in-memory one;
+      - `okSample`, run that writes no checkpoint (importance sampler, SMC interrupted before its first checkpoint,
+                    no proposal): the file holds no checkpoint, or the run leaves configuration (config off or
+                    sampler SMC) and proposal (flag set, or same proposal) as they are;
+      - `enter`, `exit`, `resume` are always safe.
+  * `safe_iff_consistent_throughout` : `Safe` is EXACTLY the set of sequences after each of whose operations every
+    file is self-consistent — every excluded step breaks a file on the spot (`unsafe_breaks`), so `Safe` cannot be
+    enlarged.  The excluded steps, each with a concrete witness below:
+      a. `fit(..., overwrite=True)` into a file holding a checkpoint                         (`witness_fit_overwrite`)
+      b. a run/fit that rewrites the configuration of a file holding an SMC checkpoint with another sampler or none
+                                                 (`witness_other_sampler`, `witness_fit_after_resume`)
+      c. an SMC run with the configuration switched off into a file whose configuration does not name SMC
+                                                 (`witness_config_off`, `witness_resume_config_off`)
+      d. an SMC run that does not write the proposal because the context's `saved_flow` flag is already set, into a
+         file holding another proposal: refit inside a context, or explicit other path inside a context
+                                                 (`witness_refit_in_context`, `witness_other_path_in_context`)
+      e. a run that writes no checkpoint but replaces the proposal of a file holding a checkpoint: SMC interrupted
+         before its first checkpoint, or importance sampling, after a refit  (`witness_interrupted_before_first_checkpoint`)
+  * `disciplined_safe` : two rules on the control state (no refit in a context that has saved its proposal; inside a
+    context sample to the context's own file) make clause d impossible without looking at the file (`Saved` invariant:
+    a context whose `saved_flow` flag is set points to a file holding the in-memory proposal).
+  * `synSafe_safe`, `consistent_synSafe` : a purely syntactic (regular) sub-language — SMC-only sessions, fits without
+    overwrite, runs that reach their first checkpoint, contexts with `save_config=True` used as "fits, then runs" —
+    including refit + rerun to the same file any number of times (the history repaired by the recent fix).
+  * `resume_then_sample_safe` : resuming a file that holds a checkpoint and sampling is always safe.
+  * single-step facts: `sample_writes_current_flow(_ctx)`, `pinned_keeps_stale_flow`, `resume_uses_file_flow`,
+    `resume_never_mixes`, `resume_raises_without_config_or_flow`.
 -/
 namespace C14
 open Model
@@ -40,18 +80,24 @@ theorem getFile_setFile_other (fs : List (Nat × CkFile)) (p q : Nat) (f : CkFil
 
 /-! ### the full-strength statement and why it fails -/
 
+/-- C14 at full strength (kept visible; it is false, see below) -/
 def consistent_after_any_sequence : Prop := ∀ ops, AllConsistent (srun {} ops) = true
 
+/-- a. refit with `overwrite=True` into a file that holds a checkpoint: proposal version 2 next to a checkpoint
+    weighted under version 1 -/
 theorem witness_fit_overwrite :
     let s := srun {} [fit none false, sample smc (some 1) true 0, fit (some 1) true]
     getFile s.files 1 = { flow := some 2, hasConfig := true, cfgSampler := some smc, ckpt := some (1, smc) } ∧
     Consistent (getFile s.files 1) = false ∧ AllConsistent s = false := by decide
 
+/-- b. another sampler run on the same file: the configuration names `importance`, the checkpoint was written by SMC -/
 theorem witness_other_sampler :
     let s := srun {} [fit none false, sample smc (some 1) true 0, sample importance (some 1) true 0]
     getFile s.files 1 = { flow := some 1, hasConfig := true, cfgSampler := some importance, ckpt := some (1, smc) } ∧
     Consistent (getFile s.files 1) = false ∧ AllConsistent s = false := by decide
 
+/-- c. `auto_checkpoint(save_config=False)`: a checkpoint next to NO configuration at all (`hasConfig = false`,
+    no sampler named) -/
 theorem witness_config_off :
     let s := srun {} [fit none false, enter 1 false, sample smc none true 0]
     getFile s.files 1 = { flow := some 1, hasConfig := false, cfgSampler := none, ckpt := some (1, smc) } ∧
@@ -61,6 +107,42 @@ theorem consistent_after_any_sequence_false : ¬ consistent_after_any_sequence :
   intro h
   have := h [fit none false, sample smc (some 1) true 0, fit (some 1) true]
   exact absurd this (by decide)
+
+/-! further histories of the same family ("a checkpoint stays/goes in the file while its proposal or configuration
+    is replaced or not written") that the model of the current code exhibits -/
+
+/-- d1. refit and rerun INSIDE one context: the proposal is written once per context, so the second run's checkpoint
+    (weighted under version 2) sits next to proposal version 1 -/
+theorem witness_refit_in_context :
+    let s := srun {} [enter 1 true, fit none false, sample smc none true 0, fit none false, sample smc none true 0]
+    getFile s.files 1 = { flow := some 1, hasConfig := true, cfgSampler := some smc, ckpt := some (2, smc) } ∧
+    Consistent (getFile s.files 1) = false := by decide
+
+/-- d2. explicit other path inside a context whose `saved_flow` flag is set: file 2 gets a checkpoint and no proposal -/
+theorem witness_other_path_in_context :
+    let s := srun {} [enter 1 true, fit none false, sample smc none true 0, sample smc (some 2) true 0]
+    getFile s.files 2 = { flow := none, hasConfig := true, cfgSampler := some smc, ckpt := some (1, smc) } ∧
+    Consistent (getFile s.files 2) = false := by decide
+
+/-- b'. `fit(path)` on the resumed instance rewrites the configuration without a sampler -/
+theorem witness_fit_after_resume :
+    let s := srun {} [fit none false, sample smc (some 1) true 0, resume 1, fit (some 1) false]
+    getFile s.files 1 = { flow := some 1, hasConfig := true, cfgSampler := none, ckpt := some (1, smc) } ∧
+    Consistent (getFile s.files 1) = false := by decide
+
+/-- c'. the resumed instance never writes the configuration: SMC on a file whose configuration names no sampler -/
+theorem witness_resume_config_off :
+    let s := srun {} [fit (some 1) false, resume 1, sample smc none true 0]
+    getFile s.files 1 = { flow := some 1, hasConfig := true, cfgSampler := none, ckpt := some (1, smc) } ∧
+    Consistent (getFile s.files 1) = false := by decide
+
+/-- e. a run interrupted before its first checkpoint has already replaced the proposal -/
+theorem witness_interrupted_before_first_checkpoint :
+    let s := srun {} [fit none false, sample smc (some 1) true 0, fit none false, sample smc (some 1) false 0]
+    getFile s.files 1 = { flow := some 2, hasConfig := true, cfgSampler := some smc, ckpt := some (1, smc) } ∧
+    Consistent (getFile s.files 1) = false := by decide
+
+/-! ### resuming reads the proposal of the file -/
 
 theorem resume_uses_file_flow (s s' : Sess) (p : Nat) (h : stepResume s p = some s') :
     s'.memFlow = (getFile s.files p).flow ∧ s'.resumeFrom = (getFile s.files p).ckpt ∧ s'.files = s.files := by
@@ -115,23 +197,46 @@ theorem resume_ok_iff (s : Sess) (p : Nat) :
   unfold stepResume
   cases h1 : (getFile s.files p).hasConfig <;> cases h2 : (getFile s.files p).flow <;> simp [h1, h2]
 
-/-! ### single step -/
+/-! ### the single-step fact behind the fix: a run writes the proposal its particles are weighted under -/
 
 theorem sample_writes_current_flow (s : Sess) (p v n : Nat) (c : Bool) (hm : s.memFlow = some v) (hd : s.dstack = [])
-   (hw : c = true ∨ 0 < n) :
-    getFile (stepSample s .smc (some p) c n).files p =
-      { flow := some v, hasConfig := true, cfgSampler := some .smc, ckpt := some (v, .smc) } := by
-  have hw' : (c || decide (0 < n)) = true := by rcases hw with h | h <;> simp [h]
-  unfold stepSample; simp [topDflt, hm, hd, getFile_setFile_same, hw']
-
-theorem sample_writes_current_flow_ctx (s : Sess) (d : Dflt) (rest : List Dflt) (p v n : Nat) (c : Bool)
-    (hm : s.memFlow = some v) (hd : s.dstack = d :: rest) (hs : d.savedFlow = false)
-   (hw : c = true ∨ 0 < n) :
+    (hw : c = true ∨ 0 < n) :
     getFile (stepSample s .smc (some p) c n).files p =
       { flow := some v, hasConfig := true, cfgSampler := some .smc, ckpt := some (v, .smc) } ∧
+    Consistent (getFile (stepSample s .smc (some p) c n).files p) = true := by
+  have hw' : (c || decide (0 < n)) = true := by rcases hw with h | h <;> simp [h]
+  have h1 : getFile (stepSample s .smc (some p) c n).files p =
+      { flow := some v, hasConfig := true, cfgSampler := some .smc, ckpt := some (v, .smc) } := by
+    unfold stepSample; simp [topDflt, hm, hd, getFile_setFile_same, hw']
+  exact ⟨h1, by rw [h1]; simp [Consistent]⟩
+
+/-- the same inside a context that has not yet saved its proposal (whatever file the context points to) -/
+theorem sample_writes_current_flow_ctx (s : Sess) (d : Dflt) (rest : List Dflt) (p v n : Nat) (c : Bool)
+    (hm : s.memFlow = some v) (hd : s.dstack = d :: rest) (hs : d.savedFlow = false)
+    (hw : c = true ∨ 0 < n) :
+    getFile (stepSample s .smc (some p) c n).files p =
+      { flow := some v, hasConfig := true, cfgSampler := some .smc, ckpt := some (v, .smc) } ∧
+    Consistent (getFile (stepSample s .smc (some p) c n).files p) = true ∧
     (stepSample s .smc (some p) c n).dstack = { d with savedConfig := true, savedFlow := true } :: rest := by
   have hw' : (c || decide (0 < n)) = true := by rcases hw with h | h <;> simp [h]
-  unfold stepSample; simp [topDflt, setTop, hm, hd, hs, getFile_setFile_same, hw']
+  have h1 : getFile (stepSample s .smc (some p) c n).files p =
+      { flow := some v, hasConfig := true, cfgSampler := some .smc, ckpt := some (v, .smc) } ∧
+      (stepSample s .smc (some p) c n).dstack = { d with savedConfig := true, savedFlow := true } :: rest := by
+    unfold stepSample; simp [topDflt, setTop, hm, hd, hs, getFile_setFile_same, hw']
+  exact ⟨h1.1, by rw [h1.1]; simp [Consistent], h1.2⟩
+
+/-- path omitted, context with `save_config=True` that has not yet saved its proposal -/
+theorem sample_writes_current_flow_default (s : Sess) (d : Dflt) (rest : List Dflt) (v n : Nat) (c : Bool)
+    (hm : s.memFlow = some v) (hd : s.dstack = d :: rest) (hs : d.savedFlow = false) (hc : d.saveConfig = true)
+    (hw : c = true ∨ 0 < n) :
+    getFile (stepSample s .smc none c n).files d.path =
+      { flow := some v, hasConfig := true, cfgSampler := some .smc, ckpt := some (v, .smc) } ∧
+    Consistent (getFile (stepSample s .smc none c n).files d.path) = true := by
+  have hw' : (c || decide (0 < n)) = true := by rcases hw with h | h <;> simp [h]
+  have h1 : getFile (stepSample s .smc none c n).files d.path =
+      { flow := some v, hasConfig := true, cfgSampler := some .smc, ckpt := some (v, .smc) } := by
+    unfold stepSample; simp [topDflt, setTop, hm, hd, hs, hc, getFile_setFile_same, hw']
+  exact ⟨h1, by rw [h1]; simp [Consistent]⟩
 
 /-! ### the pre-fix rule -/
 
@@ -316,5 +421,1078 @@ theorem stepFit_target (s : Sess) (path : Option Nat) (o : Bool) (p : Nat) (save
       rcases hg : getFile s.files dp with ⟨ff, fh, fc, fk⟩
       cases ff <;> cases o <;> cases dsvc <;> cases dsc <;>
         simp [topDflt, setTop, hd, hg, fitFile, markTop, topSavedConfig]
+
+theorem stepFit_other (s : Sess) (path : Option Nat) (o : Bool) :
+    (stepFit s path o).nextVersion = s.nextVersion + 1 ∧ (stepFit s path o).lastSampler = s.lastSampler ∧
+    (stepFit s path o).resumeSampler = s.resumeSampler := by
+  cases path with
+  | some p' =>
+    cases hd : s.dstack with
+    | nil =>
+      unfold stepFit
+      rcases hg : getFile s.files p' with ⟨ff, fh, fc, fk⟩
+      cases ff <;> cases o <;> simp [topDflt, hd]
+    | cons d rest =>
+      obtain ⟨dp, dsc, dsvc, dsvf⟩ := d
+      unfold stepFit
+      rcases hg : getFile s.files p' with ⟨ff, fh, fc, fk⟩
+      cases ff <;> cases o <;> cases dsvc <;> simp [topDflt, setTop, hd]
+  | none =>
+    cases hd : s.dstack with
+    | nil => unfold stepFit; simp [topDflt, hd]
+    | cons d rest =>
+      obtain ⟨dp, dsc, dsvc, dsvf⟩ := d
+      unfold stepFit
+      rcases hg : getFile s.files dp with ⟨ff, fh, fc, fk⟩
+      cases ff <;> cases o <;> cases dsvc <;> cases dsc <;> simp [topDflt, setTop, hd, hg]
+
+theorem stepSample_other (s : Sess) (k : SamplerKind) (path : Option Nat) (c : Bool) (n : Nat) :
+    (stepSample s k path c n).nextVersion = s.nextVersion ∧
+    (stepSample s k path c n).lastSampler = some (effSampler s k) ∧
+    (stepSample s k path c n).resumeSampler = s.resumeSampler := by
+  cases path with
+  | some p' =>
+    cases hd : s.dstack with
+    | nil =>
+      unfold stepSample
+      cases hm : s.memFlow <;> rcases hr : s.resumeSampler with _ | _ | _ <;> cases k <;>
+        simp [topDflt, hd, hr, effSampler]
+    | cons d rest =>
+      obtain ⟨dp, dsc, dsvc, dsvf⟩ := d
+      unfold stepSample
+      cases hm : s.memFlow <;> cases dsvf <;> rcases hr : s.resumeSampler with _ | _ | _ <;> cases k <;>
+        simp [topDflt, setTop, hd, hr, effSampler]
+  | none =>
+    cases hd : s.dstack with
+    | nil =>
+      unfold stepSample
+      rcases hr : s.resumeSampler with _ | _ | _ <;> cases k <;> simp [topDflt, hd, hr, effSampler]
+    | cons d rest =>
+      obtain ⟨dp, dsc, dsvc, dsvf⟩ := d
+      unfold stepSample
+      cases hm : s.memFlow <;> cases dsvf <;> cases dsc <;>
+        rcases hr : s.resumeSampler with _ | _ | _ <;> cases k <;>
+        simp [topDflt, setTop, hd, hr, effSampler]
+
+/-! ### which steps are safe -/
+
+/-- a file whose checkpoint (if any) matches its proposal and its configuration; in this model only SMC
+    writes checkpoints -/
+def GoodFile (f : CkFile) : Prop :=
+  ∀ v k, f.ckpt = some (v, k) → f.flow = some v ∧ f.cfgSampler = some k ∧ k = .smc
+
+def AllGood (fs : List (Nat × CkFile)) : Prop := ∀ pf ∈ fs, GoodFile pf.2
+
+theorem good_getFile (fs : List (Nat × CkFile)) (h : AllGood fs) (p : Nat) : GoodFile (getFile fs p) := by
+  unfold getFile
+  split
+  · rename_i q f hfind
+    exact h _ (List.mem_of_find?_eq_some hfind)
+  · intro v k hk; simp at hk
+
+theorem good_setFile (fs : List (Nat × CkFile)) (h : AllGood fs) (p : Nat) (f : CkFile) (hf : GoodFile f) :
+    AllGood (setFile fs p f) := by
+  intro pf hpf
+  simp only [setFile, List.mem_cons, List.mem_filter] at hpf
+  rcases hpf with rfl | ⟨hm, _⟩
+  · exact hf
+  · exact h pf hm
+
+/-- `fit` is safe unless the target file holds a checkpoint and the call replaces the file's proposal
+    (`overwrite=True`, witness a) or rewrites its configuration with a sampler other than the checkpoint's -/
+def okFit (s : Sess) (path : Option Nat) (o : Bool) : Bool :=
+  match target s path with
+  | none => true
+  | some (p, saveCfg) =>
+    (getFile s.files p).ckpt.isNone ||
+      (!o && (!(saveCfg && !topSavedConfig s) || s.lastSampler == some .smc))
+
+/-- `sample_posterior`.
+    A run that writes a checkpoint is safe iff the configuration is written or already names SMC (else witness c),
+    and the proposal is written or the file already holds the in-memory one (else the stale `saved_flow` flag).
+    A run that writes no checkpoint (importance sampler, interrupted before the first checkpoint, no proposal) is safe
+    iff the file holds no checkpoint or the run leaves its configuration (witness b) and proposal as they are. -/
+def okSample (s : Sess) (k : SamplerKind) (path : Option Nat) (c : Bool) (n : Nat) : Bool :=
+  match target s path with
+  | none => true
+  | some (p, saveCfg) =>
+    if writesCkpt (effSampler s k) c n && s.memFlow.isSome then
+      (saveCfg || (getFile s.files p).cfgSampler == some .smc) &&
+      (!topSavedFlow s || (getFile s.files p).flow == s.memFlow)
+    else
+      (getFile s.files p).ckpt.isNone ||
+        ((!saveCfg || effSampler s k == .smc) &&
+         (s.memFlow.isNone || topSavedFlow s || s.memFlow == (getFile s.files p).flow))
+
+def okStep (s : Sess) : SOp → Bool
+  | .fit p o => okFit s p o
+  | .sample k p c n => okSample s k p c n
+  | .enter _ _ => true
+  | .exit => true
+  | .resume _ => true
+
+/-- the state after one operation (unchanged when the operation raises) -/
+def next (s : Sess) (op : SOp) : Sess := (sstep s op).getD s
+
+/-- every step of the run is safe in the state it is applied to -/
+def SafeFrom (s : Sess) : List SOp → Bool
+  | [] => true
+  | op :: rest => okStep s op && SafeFrom (next s op) rest
+
+/-- **the safe language** -/
+def Safe (ops : List SOp) : Prop := SafeFrom {} ops = true
+
+instance (ops : List SOp) : Decidable (Safe ops) := by unfold Safe; infer_instance
+
+theorem srun_cons (s : Sess) (op : SOp) (rest : List SOp) : srun s (op :: rest) = srun (next s op) rest := by
+  simp only [srun, next]
+  cases sstep s op <;> rfl
+
+/-! ### safe steps keep every file good -/
+
+theorem sampleFile_good (f : CkFile) (saveCfg : Bool) (k' : SamplerKind) (sf : Bool) (mem : Option Nat) (c : Bool) (n : Nat)
+    (hf : GoodFile f)
+    (hg : (if writesCkpt k' c n && mem.isSome then
+             (saveCfg || f.cfgSampler == some .smc) && (!sf || f.flow == mem)
+           else f.ckpt.isNone || ((!saveCfg || k' == .smc) && (mem.isNone || sf || mem == f.flow))) = true) :
+    GoodFile (sampleFile f saveCfg k' (mem.isSome && !sf) mem (writesCkpt k' c n)) := by
+  intro v k hck
+  have hsmc : writesCkpt k' c n = true → k' = .smc := by
+    cases k' <;> simp [writesCkpt]
+  obtain ⟨ff, fh, fc, fk⟩ := f
+  cases hw : writesCkpt k' c n
+  · have hk0 : fk = some (v, k) := by
+      cases mem <;> simpa [sampleFile, hw] using hck
+    obtain ⟨h1, h2, h3⟩ := hf v k hk0
+    simp only at h1 h2 h3
+    subst h1 h2 h3 hk0
+    cases mem <;> cases saveCfg <;> cases sf <;> simp_all [sampleFile]
+  · have hk' := hsmc hw
+    subst hk'
+    cases mem with
+    | none =>
+      have hk0 : fk = some (v, k) := by simpa [sampleFile, hw] using hck
+      obtain ⟨h1, h2, h3⟩ := hf v k hk0
+      simp only at h1 h2 h3
+      subst h1 h2 h3 hk0
+      cases saveCfg <;> cases sf <;> simp_all [sampleFile]
+    | some m =>
+      have : m = v ∧ smc = k := by simpa [sampleFile, hw] using hck
+      obtain ⟨rfl, rfl⟩ := this
+      cases saveCfg <;> cases sf <;> simp_all [sampleFile]
+
+theorem fitFile_good (f : CkFile) (wc : Bool) (last : Option SamplerKind) (o : Bool) (v : Nat)
+    (hf : GoodFile f)
+    (hg : (f.ckpt.isNone || (!o && (!wc || last == some .smc))) = true) :
+    GoodFile (fitFile f wc last o v) := by
+  intro v0 k hck
+  obtain ⟨ff, fh, fc, fk⟩ := f
+  have hk0 : fk = some (v0, k) := by simpa [fitFile] using hck
+  obtain ⟨h1, h2, h3⟩ := hf v0 k hk0
+  simp only at h1 h2 h3
+  subst h1 h2 h3 hk0
+  cases o <;> cases wc <;> simp_all [fitFile]
+
+theorem good_fit (s : Sess) (path : Option Nat) (o : Bool) (hI : AllGood s.files) (hg : okFit s path o = true) :
+    AllGood (stepFit s path o).files := by
+  cases ht : target s path with
+  | none => rw [(stepFit_noTarget s path o ht).1]; exact hI
+  | some ps =>
+    obtain ⟨p, saveCfg⟩ := ps
+    unfold okFit at hg
+    rw [ht] at hg
+    rw [(stepFit_target s path o p saveCfg ht).1]
+    exact good_setFile _ hI _ _ (fitFile_good _ _ _ _ _ (good_getFile _ hI p) hg)
+
+theorem good_sample (s : Sess) (k : SamplerKind) (path : Option Nat) (c : Bool) (n : Nat) (hI : AllGood s.files)
+    (hg : okSample s k path c n = true) : AllGood (stepSample s k path c n).files := by
+  cases ht : target s path with
+  | none => rw [(stepSample_noTarget s k path c n ht).1]; exact hI
+  | some ps =>
+    obtain ⟨p, saveCfg⟩ := ps
+    unfold okSample at hg
+    rw [ht] at hg
+    rw [(stepSample_target s k path c n p saveCfg ht).1]
+    exact good_setFile _ hI _ _ (sampleFile_good _ _ _ _ _ _ _ (good_getFile _ hI p) hg)
+
+theorem resume_files (s s' : Sess) (p : Nat) (h : stepResume s p = some s') :
+    s'.files = s.files ∧ s'.dstack = [{ path := p, saveConfig := false }] ∧ s'.nextVersion = s.nextVersion := by
+  unfold stepResume at h
+  simp only at h
+  split at h
+  · exact absurd h (by simp)
+  · split at h
+    · exact absurd h (by simp)
+    · injection h with h
+      subst h
+      exact ⟨rfl, rfl, rfl⟩
+
+theorem good_next (s : Sess) (op : SOp) (hI : AllGood s.files) (hg : okStep s op = true) :
+    AllGood (next s op).files := by
+  cases op with
+  | fit p o => exact good_fit s p o hI hg
+  | sample k p c n => exact good_sample s k p c n hI hg
+  | enter p sc => exact hI
+  | exit => exact hI
+  | resume p =>
+    simp only [next, sstep]
+    cases h : stepResume s p with
+    | none => exact hI
+    | some s' => simp only [Option.getD_some]; rw [(resume_files s s' p h).1]; exact hI
+
+theorem good_run (ops : List SOp) : ∀ s, AllGood s.files → SafeFrom s ops = true → AllGood (srun s ops).files := by
+  induction ops with
+  | nil => intro s hI _; exact hI
+  | cons op rest ih =>
+    intro s hI hs
+    simp only [SafeFrom, Bool.and_eq_true] at hs
+    rw [srun_cons]
+    exact ih _ (good_next s op hI hs.1) hs.2
+
+theorem good_allConsistent (s : Sess) (hI : AllGood s.files) : AllConsistent s = true := by
+  simp only [AllConsistent, List.all_eq_true]
+  intro pf hpf
+  rw [consistent_iff]
+  intro v k hk
+  obtain ⟨h1, h2, _⟩ := hI pf hpf v k hk
+  exact ⟨h1, h2⟩
+
+/-- **C14, partial**: along every safe sequence every file stays self-consistent -/
+theorem consistent_partial (ops : List SOp) (h : Safe ops) : AllConsistent (srun {} ops) = true :=
+  good_allConsistent _ (good_run ops {} (by intro pf hpf; simp at hpf) h)
+
+/-! ### every excluded step breaks a file: `Safe` is exactly the language on which C14 holds throughout -/
+
+/-- proposal versions in memory and in files are older than the next one to be produced -/
+structure Fresh (s : Sess) : Prop where
+  mem : ∀ v, s.memFlow = some v → v < s.nextVersion
+  file : ∀ pf ∈ s.files, ∀ v, pf.2.flow = some v → v < s.nextVersion
+
+theorem fresh_getFile (s : Sess) (h : Fresh s) (p v : Nat) (hv : (getFile s.files p).flow = some v) :
+    v < s.nextVersion := by
+  unfold getFile at hv
+  split at hv
+  · rename_i q f hfind
+    exact h.file _ (List.mem_of_find?_eq_some hfind) v hv
+  · simp at hv
+
+theorem fresh_setFile (fs : List (Nat × CkFile)) (N : Nat) (h : ∀ pf ∈ fs, ∀ v, pf.2.flow = some v → v < N)
+    (p : Nat) (f : CkFile) (hf : ∀ v, f.flow = some v → v < N) :
+    ∀ pf ∈ setFile fs p f, ∀ v, pf.2.flow = some v → v < N := by
+  intro pf hpf
+  simp only [setFile, List.mem_cons, List.mem_filter] at hpf
+  rcases hpf with rfl | ⟨hm, _⟩
+  · exact hf
+  · exact h pf hm
+
+theorem fresh_fit (s : Sess) (path : Option Nat) (o : Bool) (h : Fresh s) : Fresh (stepFit s path o) := by
+  obtain ⟨hn, _, _⟩ := stepFit_other s path o
+  cases ht : target s path with
+  | none =>
+    obtain ⟨h1, _, h3⟩ := stepFit_noTarget s path o ht
+    refine ⟨?_, ?_⟩
+    · intro v hv; rw [h3] at hv; rw [hn]; injection hv with hv; omega
+    · intro pf hpf v hv; rw [h1] at hpf; rw [hn]; exact Nat.lt_succ_of_lt (h.file pf hpf v hv)
+  | some ps =>
+    obtain ⟨p, saveCfg⟩ := ps
+    obtain ⟨h1, _, h3⟩ := stepFit_target s path o p saveCfg ht
+    refine ⟨?_, ?_⟩
+    · intro v hv; rw [h3] at hv; rw [hn]; injection hv with hv; omega
+    · rw [h1, hn]
+      refine fresh_setFile _ _ (fun pf hpf v hv => Nat.lt_succ_of_lt (h.file pf hpf v hv)) _ _ ?_
+      intro v hv
+      simp only [fitFile] at hv
+      split at hv
+      · injection hv with hv; omega
+      · exact Nat.lt_succ_of_lt (fresh_getFile s h p v hv)
+
+theorem fresh_sample (s : Sess) (k : SamplerKind) (path : Option Nat) (c : Bool) (n : Nat) (h : Fresh s) :
+    Fresh (stepSample s k path c n) := by
+  obtain ⟨hn, _, _⟩ := stepSample_other s k path c n
+  cases ht : target s path with
+  | none =>
+    obtain ⟨h1, _, h3⟩ := stepSample_noTarget s k path c n ht
+    exact ⟨by rw [h3, hn]; exact h.mem, by rw [h1, hn]; exact h.file⟩
+  | some ps =>
+    obtain ⟨p, saveCfg⟩ := ps
+    obtain ⟨h1, _, h3⟩ := stepSample_target s k path c n p saveCfg ht
+    refine ⟨by rw [h3, hn]; exact h.mem, ?_⟩
+    rw [h1, hn]
+    refine fresh_setFile _ _ h.file _ _ ?_
+    intro v hv
+    simp only [sampleFile] at hv
+    split at hv
+    · exact h.mem v hv
+    · exact fresh_getFile s h p v hv
+
+theorem fresh_next (s : Sess) (op : SOp) (h : Fresh s) : Fresh (next s op) := by
+  cases op with
+  | fit p o => exact fresh_fit s p o h
+  | sample k p c n => exact fresh_sample s k p c n h
+  | enter p sc => exact ⟨h.mem, h.file⟩
+  | exit => exact ⟨h.mem, h.file⟩
+  | resume p =>
+    simp only [next, sstep]
+    cases hr : stepResume s p with
+    | none => exact h
+    | some s' =>
+      simp only [Option.getD_some]
+      obtain ⟨hf, _, hn⟩ := resume_files s s' p hr
+      obtain ⟨hm, _, _⟩ := resume_uses_file_flow s s' p hr
+      refine ⟨?_, by rw [hf, hn]; exact h.file⟩
+      intro v hv
+      rw [hm] at hv; rw [hn]
+      exact fresh_getFile s h p v hv
+
+theorem allConsistent_setFile_false (s' : Sess) (fs : List (Nat × CkFile)) (p : Nat) (f : CkFile)
+    (hfiles : s'.files = setFile fs p f) (hf : Consistent f = false) : AllConsistent s' = false := by
+  simp [AllConsistent, hfiles, setFile, hf]
+
+theorem fitFile_bad (f : CkFile) (wc : Bool) (last : Option SamplerKind) (o : Bool) (N : Nat)
+    (hf : GoodFile f) (hfresh : ∀ v, f.flow = some v → v < N)
+    (hg : (f.ckpt.isNone || (!o && (!wc || last == some .smc))) = false) :
+    Consistent (fitFile f wc last o N) = false := by
+  obtain ⟨ff, fh, fc, fk⟩ := f
+  cases fk with
+  | none => simp at hg
+  | some vk =>
+    obtain ⟨v0, k0⟩ := vk
+    obtain ⟨h1, h2, h3⟩ := hf v0 k0 rfl
+    simp only at h1 h2 h3
+    subst h1 h2 h3
+    have hlt : v0 < N := hfresh v0 rfl
+    have hne : ¬ N = v0 := by omega
+    cases o <;> cases wc <;> simp_all [fitFile, Consistent]
+
+theorem sampleFile_bad (f : CkFile) (saveCfg : Bool) (k' : SamplerKind) (sf : Bool) (mem : Option Nat) (c : Bool) (n : Nat)
+    (hf : GoodFile f)
+    (hg : (if writesCkpt k' c n && mem.isSome then
+             (saveCfg || f.cfgSampler == some .smc) && (!sf || f.flow == mem)
+           else f.ckpt.isNone || ((!saveCfg || k' == .smc) && (mem.isNone || sf || mem == f.flow))) = false) :
+    Consistent (sampleFile f saveCfg k' (mem.isSome && !sf) mem (writesCkpt k' c n)) = false := by
+  have hsmc : writesCkpt k' c n = true → k' = .smc := by
+    cases k' <;> simp [writesCkpt]
+  obtain ⟨ff, fh, fc, fk⟩ := f
+  cases hw : writesCkpt k' c n
+  · simp only [hw, Bool.false_and, Bool.false_eq_true, if_false] at hg
+    cases fk with
+    | none => simp at hg
+    | some vk =>
+      obtain ⟨v0, k0⟩ := vk
+      obtain ⟨h1, h2, h3⟩ := hf v0 k0 rfl
+      simp only at h1 h2 h3
+      subst h1 h2 h3
+      cases mem <;> cases saveCfg <;> cases sf <;> cases k' <;> simp_all [sampleFile, Consistent]
+  · have hk' := hsmc hw
+    subst hk'
+    cases mem with
+    | none =>
+      simp only [hw, Option.isSome_none, Bool.and_false, Bool.false_eq_true, if_false] at hg
+      cases fk with
+      | none => simp at hg
+      | some vk =>
+        obtain ⟨v0, k0⟩ := vk
+        obtain ⟨h1, h2, h3⟩ := hf v0 k0 rfl
+        simp only at h1 h2 h3
+        subst h1 h2 h3
+        cases saveCfg <;> cases sf <;> simp_all
+    | some m =>
+      cases saveCfg <;> cases sf <;> simp_all [sampleFile, Consistent] <;>
+        (intro h1 h2; exact hg h2 h1)
+
+/-- an excluded step leaves an inconsistent file behind -/
+theorem unsafe_breaks (s : Sess) (op : SOp) (hI : AllGood s.files) (hF : Fresh s) (hg : okStep s op = false) :
+    AllConsistent (next s op) = false := by
+  cases op with
+  | fit path o =>
+    simp only [okStep, okFit] at hg
+    cases ht : target s path with
+    | none => simp [ht] at hg
+    | some ps =>
+      obtain ⟨p, saveCfg⟩ := ps
+      rw [ht] at hg
+      exact allConsistent_setFile_false _ _ _ _ (stepFit_target s path o p saveCfg ht).1
+        (fitFile_bad _ _ _ _ _ (good_getFile _ hI p) (fresh_getFile s hF p) hg)
+  | sample k path c n =>
+    simp only [okStep, okSample] at hg
+    cases ht : target s path with
+    | none => simp [ht] at hg
+    | some ps =>
+      obtain ⟨p, saveCfg⟩ := ps
+      rw [ht] at hg
+      exact allConsistent_setFile_false _ _ _ _ (stepSample_target s k path c n p saveCfg ht).1
+        (sampleFile_bad _ _ _ _ _ _ _ (good_getFile _ hI p) hg)
+  | enter p sc => simp [okStep] at hg
+  | exit => simp [okStep] at hg
+  | resume p => simp [okStep] at hg
+
+/-- every file is self-consistent after each operation of the run -/
+def ConsistentThroughout (s : Sess) : List SOp → Bool
+  | [] => true
+  | op :: rest => AllConsistent (next s op) && ConsistentThroughout (next s op) rest
+
+theorem safeFrom_eq (ops : List SOp) :
+    ∀ s, AllGood s.files → Fresh s → SafeFrom s ops = ConsistentThroughout s ops := by
+  induction ops with
+  | nil => intro s _ _; rfl
+  | cons op rest ih =>
+    intro s hI hF
+    simp only [SafeFrom, ConsistentThroughout]
+    cases hg : okStep s op
+    · rw [unsafe_breaks s op hI hF hg]; rfl
+    · have hI' := good_next s op hI hg
+      rw [good_allConsistent _ hI', ih _ hI' (fresh_next s op hF)]
+
+theorem fresh_init : Fresh {} := ⟨by intro v h; simp at h, by intro pf h; simp at h⟩
+
+/-- **`Safe` is the largest language**: a sequence is safe iff every file is self-consistent after each of its
+    operations; i.e. each excluded operation is one that breaks a file on the spot. -/
+theorem safe_iff_consistent_throughout (ops : List SOp) : Safe ops ↔ ConsistentThroughout {} ops = true := by
+  unfold Safe
+  rw [safeFrom_eq ops {} (by intro pf hpf; simp at hpf) fresh_init]
+
+/-! ### a discipline on the context flags under which the proposal in the file need not be inspected
+
+`Safe` lets a checkpoint-writing run skip the proposal (flag `saved_flow` of the context already set) only when the
+file holds the in-memory proposal.  Two rules about the control state guarantee this: do not refit inside a context
+that has already saved its proposal, and inside a context sample to the context's own file. -/
+
+def topPathIs (s : Sess) (p : Nat) : Bool :=
+  match topDflt s with
+  | some d => d.path == p
+  | none => true
+
+def okFitD (s : Sess) (path : Option Nat) (o : Bool) : Bool :=
+  s.dstack.all (fun d => !d.savedFlow) && okFit s path o
+
+def okSampleD (s : Sess) (k : SamplerKind) (path : Option Nat) (c : Bool) (n : Nat) : Bool :=
+  match target s path with
+  | none => true
+  | some (p, saveCfg) =>
+    topPathIs s p &&
+    (if writesCkpt (effSampler s k) c n && s.memFlow.isSome then
+       saveCfg || (getFile s.files p).cfgSampler == some .smc
+     else
+       (getFile s.files p).ckpt.isNone ||
+         ((!saveCfg || effSampler s k == .smc) &&
+          (s.memFlow.isNone || topSavedFlow s || s.memFlow == (getFile s.files p).flow)))
+
+def okStepD (s : Sess) : SOp → Bool
+  | .fit p o => okFitD s p o
+  | .sample k p c n => okSampleD s k p c n
+  | .enter _ _ => true
+  | .exit => true
+  | .resume _ => true
+
+def SafeFromD (s : Sess) : List SOp → Bool
+  | [] => true
+  | op :: rest => okStepD s op && SafeFromD (next s op) rest
+
+def Disciplined (ops : List SOp) : Prop := SafeFromD {} ops = true
+
+instance (ops : List SOp) : Decidable (Disciplined ops) := by unfold Disciplined; infer_instance
+
+/-- a context that has saved its proposal points to a file holding the in-memory proposal -/
+def Saved (s : Sess) : Prop :=
+  ∀ d ∈ s.dstack, d.savedFlow = true → (getFile s.files d.path).flow = s.memFlow
+
+theorem saved_top (s : Sess) (p : Nat) (hS : Saved s) (htop : topPathIs s p = true) (hsf : topSavedFlow s = true) :
+    (getFile s.files p).flow = s.memFlow := by
+  cases hds : s.dstack with
+  | nil => simp [topSavedFlow, topDflt, hds] at hsf
+  | cons d0 rest =>
+    simp only [topSavedFlow, topDflt, hds, List.head?_cons] at hsf
+    simp only [topPathIs, topDflt, hds, List.head?_cons, beq_iff_eq] at htop
+    rw [← htop]
+    exact hS d0 (by simp [hds]) hsf
+
+theorem okD_imp_ok (s : Sess) (op : SOp) (hS : Saved s) (hg : okStepD s op = true) : okStep s op = true := by
+  cases op with
+  | fit p o =>
+    simp only [okStepD, okFitD, Bool.and_eq_true] at hg
+    exact hg.2
+  | sample k path c n =>
+    simp only [okStep, okStepD] at hg ⊢
+    unfold okSampleD at hg
+    unfold okSample
+    cases ht : target s path with
+    | none => rfl
+    | some ps =>
+      obtain ⟨p, saveCfg⟩ := ps
+      rw [ht] at hg
+      obtain ⟨htop, hg⟩ := (Bool.and_eq_true _ _).mp hg
+      simp only
+      split
+      · rename_i hc
+        rw [if_pos hc] at hg
+        rw [hg, Bool.true_and]
+        cases hsf : topSavedFlow s
+        · rfl
+        · simp [saved_top s p hS htop hsf]
+      · rename_i hc
+        rw [if_neg hc] at hg
+        exact hg
+  | enter p sc => rfl
+  | exit => rfl
+  | resume p => rfl
+
+theorem saved_fit (s : Sess) (path : Option Nat) (o : Bool) (hg : okFitD s path o = true) :
+    Saved (stepFit s path o) := by
+  simp only [okFitD, Bool.and_eq_true, List.all_eq_true, Bool.not_eq_true'] at hg
+  obtain ⟨hall, _⟩ := hg
+  intro d hd hs
+  exfalso
+  have hdd : (stepFit s path o).dstack = s.dstack ∨
+      ∃ b, (stepFit s path o).dstack = markTop s.dstack b false := by
+    cases ht : target s path with
+    | none => exact Or.inl (stepFit_noTarget s path o ht).2.1
+    | some ps => exact Or.inr ⟨_, (stepFit_target s path o ps.1 ps.2 ht).2.1⟩
+  rcases hdd with h2 | ⟨b, h2⟩
+  · rw [h2] at hd
+    rw [hall d hd] at hs; exact absurd hs (by simp)
+  · rw [h2] at hd
+    cases hds : s.dstack with
+    | nil => simp [hds, markTop] at hd
+    | cons d0 rest =>
+      simp only [hds, markTop, List.mem_cons] at hd
+      rcases hd with rfl | hd
+      · simp only [Bool.or_false] at hs
+        rw [hall d0 (by simp [hds])] at hs; exact absurd hs (by simp)
+      · rw [hall d (by simp [hds, hd])] at hs; exact absurd hs (by simp)
+
+theorem saved_sample (s : Sess) (k : SamplerKind) (path : Option Nat) (c : Bool) (n : Nat) (hS : Saved s)
+    (hg : okSampleD s k path c n = true) : Saved (stepSample s k path c n) := by
+  cases ht : target s path with
+  | none =>
+    obtain ⟨h1, h2, h3⟩ := stepSample_noTarget s k path c n ht
+    intro d hd hs
+    rw [h1, h3]; rw [h2] at hd
+    exact hS d hd hs
+  | some ps =>
+    obtain ⟨p, saveCfg⟩ := ps
+    obtain ⟨h1, h2, h3⟩ := stepSample_target s k path c n p saveCfg ht
+    unfold okSampleD at hg
+    rw [ht] at hg
+    obtain ⟨htop, _⟩ := (Bool.and_eq_true _ _).mp hg
+    intro d hd hs
+    rw [h1, h3]
+    rw [h2] at hd
+    -- either the old invariant applies to `d`, or `d` is the top context and the proposal has just been written
+    have key : (getFile s.files d.path).flow = s.memFlow ∨
+        (d.path = p ∧ (s.memFlow.isSome && !topSavedFlow s) = true) := by
+      cases hds : s.dstack with
+      | nil => simp [hds, markTop] at hd
+      | cons d0 rest =>
+        simp only [hds, markTop, List.mem_cons] at hd
+        rcases hd with rfl | hd
+        · simp only [Bool.or_eq_true] at hs
+          simp only [topPathIs, topDflt, hds, List.head?_cons, beq_iff_eq] at htop
+          rcases hs with hs | hs
+          · exact Or.inl (hS d0 (by simp [hds]) hs)
+          · exact Or.inr ⟨htop, hs⟩
+        · exact Or.inl (hS d (by simp [hds, hd]) hs)
+    by_cases hp : d.path = p
+    · rw [hp, getFile_setFile_same]
+      rcases key with key | ⟨_, key⟩
+      · rw [hp] at key
+        simp only [sampleFile]
+        split
+        · rfl
+        · exact key
+      · simp [sampleFile, key]
+    · rw [getFile_setFile_other _ _ _ _ hp]
+      rcases key with key | ⟨key, _⟩
+      · exact key
+      · exact absurd key hp
+
+theorem saved_next (s : Sess) (op : SOp) (hS : Saved s) (hg : okStepD s op = true) : Saved (next s op) := by
+  cases op with
+  | fit p o => exact saved_fit s p o hg
+  | sample k p c n => exact saved_sample s k p c n hS hg
+  | enter p sc =>
+    intro d hd hs
+    simp only [next, sstep, Option.getD_some, List.mem_cons] at hd
+    rcases hd with rfl | hd
+    · simp at hs
+    · exact hS d hd hs
+  | exit =>
+    intro d hd hs
+    simp only [next, sstep, Option.getD_some] at hd
+    exact hS d (List.mem_of_mem_tail hd) hs
+  | resume p =>
+    simp only [next, sstep]
+    cases hr : stepResume s p with
+    | none => exact hS
+    | some s' =>
+      intro d hd hs
+      simp only [Option.getD_some] at hd
+      rw [(resume_files s s' p hr).2.1] at hd
+      simp only [List.mem_singleton] at hd
+      subst hd
+      simp at hs
+
+theorem safeFromD_safeFrom (ops : List SOp) : ∀ s, Saved s → SafeFromD s ops = true → SafeFrom s ops = true := by
+  induction ops with
+  | nil => intro s _ _; rfl
+  | cons op rest ih =>
+    intro s hS h
+    simp only [SafeFromD, Bool.and_eq_true] at h
+    simp only [SafeFrom, Bool.and_eq_true]
+    exact ⟨okD_imp_ok s op hS h.1, ih _ (saved_next s op hS h.1) h.2⟩
+
+theorem disciplined_safe (ops : List SOp) (h : Disciplined ops) : Safe ops :=
+  safeFromD_safeFrom ops {} (by intro d hd; simp at hd) h
+
+/-! ### a purely syntactic sub-language: SMC-only sessions, contexts with `save_config=True`
+
+Outside a context: `fit` without a path, `fit(path, overwrite=False)`, SMC runs that reach their first checkpoint.
+Inside `auto_checkpoint(p, save_config=True)`: first the fits (no overwrite), then SMC runs to the context's file
+(path omitted or equal to `p`) that reach their first checkpoint, then `exit`.  Refitting and sampling again to the
+same file, in or out of a new context, is allowed any number of times. -/
+
+inductive Phase
+  | out
+  | fitting (p : Nat)
+  | sampling (p : Nat)
+  deriving DecidableEq, Repr
+
+def synStep : Phase → SOp → Option Phase
+  | .out, .fit none _ => some .out
+  | .out, .fit (some _) false => some .out
+  | .out, .sample .smc none _ _ => some .out
+  | .out, .sample .smc (some _) c n => if writesCkpt .smc c n then some .out else none
+  | .out, .enter p true => some (.fitting p)
+  | .fitting p, .fit none false => some (.fitting p)
+  | .fitting p, .fit (some _) false => some (.fitting p)
+  | .fitting p, .sample .smc none c n => if writesCkpt .smc c n then some (.sampling p) else none
+  | .fitting p, .sample .smc (some q) c n => if writesCkpt .smc c n && q == p then some (.sampling p) else none
+  | .fitting _, .exit => some .out
+  | .sampling p, .sample .smc none c n => if writesCkpt .smc c n then some (.sampling p) else none
+  | .sampling p, .sample .smc (some q) c n => if writesCkpt .smc c n && q == p then some (.sampling p) else none
+  | .sampling _, .exit => some .out
+  | _, _ => none
+
+def SynSafeFrom : Phase → List SOp → Bool
+  | _, [] => true
+  | ph, op :: rest =>
+    match synStep ph op with
+    | some ph' => SynSafeFrom ph' rest
+    | none => false
+
+def SynSafe (ops : List SOp) : Prop := SynSafeFrom .out ops = true
+
+instance (ops : List SOp) : Decidable (SynSafe ops) := by unfold SynSafe; infer_instance
+
+def NoCkpt (fs : List (Nat × CkFile)) : Prop := ∀ pf ∈ fs, pf.2.ckpt = none
+
+structure Link (ph : Phase) (s : Sess) : Prop where
+  noResume : s.resumeSampler = none
+  smcOnly : s.lastSampler = some .smc ∨ NoCkpt s.files
+  stack : match ph with
+    | .out => s.dstack = []
+    | .fitting p => ∃ d, s.dstack = [d] ∧ d.path = p ∧ d.saveConfig = true ∧ d.savedFlow = false
+    | .sampling p => ∃ d, s.dstack = [d] ∧ d.path = p ∧ d.saveConfig = true
+
+theorem noCkpt_getFile (fs : List (Nat × CkFile)) (h : NoCkpt fs) (p : Nat) : (getFile fs p).ckpt = none := by
+  unfold getFile
+  split
+  · rename_i q f hfind
+    exact h _ (List.mem_of_find?_eq_some hfind)
+  · rfl
+
+theorem noCkpt_fit (s : Sess) (path : Option Nat) (o : Bool) (h : NoCkpt s.files) : NoCkpt (stepFit s path o).files := by
+  cases ht : target s path with
+  | none => rw [(stepFit_noTarget s path o ht).1]; exact h
+  | some ps =>
+    rw [(stepFit_target s path o ps.1 ps.2 ht).1]
+    intro pf hpf
+    simp only [setFile, List.mem_cons, List.mem_filter] at hpf
+    rcases hpf with rfl | ⟨hm, _⟩
+    · exact noCkpt_getFile _ h _
+    · exact h pf hm
+
+theorem effSampler_smc (s : Sess) : effSampler s .smc = .smc := by
+  unfold effSampler; cases s.resumeSampler <;> rfl
+
+theorem okFit_smcOnly (s : Sess) (path : Option Nat) (h : s.lastSampler = some .smc ∨ NoCkpt s.files) :
+    okFit s path false = true := by
+  unfold okFit
+  cases target s path with
+  | none => rfl
+  | some ps =>
+    rcases h with h | h
+    · simp [h]
+    · simp [noCkpt_getFile _ h]
+
+theorem fit_dstack (s : Sess) (path : Option Nat) (o : Bool) :
+    (stepFit s path o).dstack = s.dstack ∨ ∃ b, (stepFit s path o).dstack = markTop s.dstack b false := by
+  cases ht : target s path with
+  | none => exact Or.inl (stepFit_noTarget s path o ht).2.1
+  | some ps => exact Or.inr ⟨_, (stepFit_target s path o ps.1 ps.2 ht).2.1⟩
+
+theorem sample_dstack (s : Sess) (k : SamplerKind) (path : Option Nat) (c : Bool) (n : Nat) :
+    (stepSample s k path c n).dstack = s.dstack ∨ ∃ a b, (stepSample s k path c n).dstack = markTop s.dstack a b := by
+  cases ht : target s path with
+  | none => exact Or.inl (stepSample_noTarget s k path c n ht).2.1
+  | some ps => exact Or.inr ⟨_, _, (stepSample_target s k path c n ps.1 ps.2 ht).2.1⟩
+
+/-- a `fit` without overwrite in phase `out`/`fitting` is disciplined and keeps the phase -/
+theorem link_fit (ph : Phase) (s : Sess) (path : Option Nat) (o : Bool) (hL : Link ph s)
+    (hph : ∀ p, ph ≠ .sampling p) (ho : o = false ∨ target s path = none) :
+    okFitD s path o = true ∧ Link ph (stepFit s path o) := by
+  obtain ⟨hn, hl, hr⟩ := stepFit_other s path o
+  have hflags : s.dstack.all (fun d => !d.savedFlow) = true := by
+    have := hL.stack
+    cases ph with
+    | out => simp only at this; simp [this]
+    | fitting p => obtain ⟨d, h1, _, _, h4⟩ := this; simp [h1, h4]
+    | sampling p => exact absurd rfl (hph p)
+  refine ⟨?_, ?_, ?_, ?_⟩
+  · simp only [okFitD, hflags, Bool.true_and]
+    rcases ho with rfl | ho
+    · exact okFit_smcOnly s path hL.smcOnly
+    · simp [okFit, ho]
+  · rw [hr]; exact hL.noResume
+  · rw [hl]
+    rcases hL.smcOnly with h | h
+    · exact Or.inl h
+    · exact Or.inr (noCkpt_fit s path o h)
+  · have := hL.stack
+    cases ph with
+    | out =>
+      simp only at this ⊢
+      rcases fit_dstack s path o with h | ⟨b, h⟩ <;> rw [h, this] <;> rfl
+    | fitting p =>
+      obtain ⟨d, h1, h2, h3, h4⟩ := this
+      rcases fit_dstack s path o with h | ⟨b, h⟩
+      · exact ⟨d, by rw [h, h1], h2, h3, h4⟩
+      · exact ⟨{ d with savedConfig := d.savedConfig || b, savedFlow := d.savedFlow || false },
+          by rw [h, h1]; rfl, h2, h3, by simp [h4]⟩
+    | sampling p => exact absurd rfl (hph p)
+
+/-- an SMC run that reaches its first checkpoint and goes to the context's file (or to any file outside a context) is
+    disciplined; afterwards the session is in the sampling phase of that context -/
+theorem link_sample (ph : Phase) (s : Sess) (path : Option Nat) (c : Bool) (n : Nat) (hL : Link ph s)
+    (hw : writesCkpt .smc c n = true ∨ target s path = none)
+    (hpath : ∀ p, (ph = .fitting p ∨ ph = .sampling p) → path = none ∨ path = some p) :
+    okSampleD s .smc path c n = true ∧
+      Link (match ph with | .out => .out | .fitting p => .sampling p | .sampling p => .sampling p)
+        (stepSample s .smc path c n) := by
+  obtain ⟨hn, hl, hr⟩ := stepSample_other s .smc path c n
+  refine ⟨?_, ?_, ?_, ?_⟩
+  · unfold okSampleD
+    cases ht : target s path with
+    | none => rfl
+    | some ps =>
+      obtain ⟨p, saveCfg⟩ := ps
+      have hw' : writesCkpt .smc c n = true := by
+        rcases hw with h | h
+        · exact h
+        · rw [ht] at h; exact absurd h (by simp)
+      have hsc_top : topPathIs s p = true ∧ saveCfg = true := by
+        have := hL.stack
+        cases ph with
+        | out =>
+          simp only at this
+          cases path with
+          | none => simp [target, topDflt, this] at ht
+          | some q =>
+            simp only [target, Option.some.injEq, Prod.mk.injEq] at ht
+            exact ⟨by simp [topPathIs, topDflt, this], ht.2.symm⟩
+        | fitting p0 =>
+          obtain ⟨d, h1, h2, h3, _⟩ := this
+          rcases hpath p0 (Or.inl rfl) with rfl | rfl
+          · simp only [target, topDflt, h1, List.head?_cons, Option.some.injEq, Prod.mk.injEq] at ht
+            exact ⟨by simp [topPathIs, topDflt, h1, ht.1], by rw [← ht.2, h3]⟩
+          · simp only [target, Option.some.injEq, Prod.mk.injEq] at ht
+            exact ⟨by simp [topPathIs, topDflt, h1, h2, ht.1], ht.2.symm⟩
+        | sampling p0 =>
+          obtain ⟨d, h1, h2, h3⟩ := this
+          rcases hpath p0 (Or.inr rfl) with rfl | rfl
+          · simp only [target, topDflt, h1, List.head?_cons, Option.some.injEq, Prod.mk.injEq] at ht
+            exact ⟨by simp [topPathIs, topDflt, h1, ht.1], by rw [← ht.2, h3]⟩
+          · simp only [target, Option.some.injEq, Prod.mk.injEq] at ht
+            exact ⟨by simp [topPathIs, topDflt, h1, h2, ht.1], ht.2.symm⟩
+      obtain ⟨htop, rfl⟩ := hsc_top
+      simp only [htop, effSampler_smc, hw', Bool.true_and, Bool.true_or]
+      cases hm : s.memFlow <;> simp
+  · rw [hr]; exact hL.noResume
+  · rw [hl, effSampler_smc]; exact Or.inl rfl
+  · have := hL.stack
+    cases ph with
+    | out =>
+      simp only at this ⊢
+      rcases sample_dstack s .smc path c n with h | ⟨a, b, h⟩ <;> rw [h, this] <;> rfl
+    | fitting p =>
+      obtain ⟨d, h1, h2, h3, _⟩ := this
+      rcases sample_dstack s .smc path c n with h | ⟨a, b, h⟩
+      · exact ⟨d, by rw [h, h1], h2, h3⟩
+      · exact ⟨{ d with savedConfig := d.savedConfig || a, savedFlow := d.savedFlow || b },
+          by rw [h, h1]; rfl, h2, h3⟩
+    | sampling p =>
+      obtain ⟨d, h1, h2, h3⟩ := this
+      rcases sample_dstack s .smc path c n with h | ⟨a, b, h⟩
+      · exact ⟨d, by rw [h, h1], h2, h3⟩
+      · exact ⟨{ d with savedConfig := d.savedConfig || a, savedFlow := d.savedFlow || b },
+          by rw [h, h1]; rfl, h2, h3⟩
+
+theorem target_none_of_nil (s : Sess) (h : s.dstack = []) : target s none = none := by
+  simp [target, topDflt, h]
+
+theorem link_enter (s : Sess) (p : Nat) (hL : Link .out s) :
+    Link (.fitting p) (next s (.enter p true)) := by
+  refine ⟨hL.noResume, hL.smcOnly, ?_⟩
+  have := hL.stack
+  simp only at this
+  exact ⟨{ path := p, saveConfig := true }, by simp [next, sstep, this], rfl, rfl, rfl⟩
+
+theorem link_exit (ph : Phase) (s : Sess) (hL : Link ph s) (hph : ph ≠ .out) : Link .out (next s .exit) := by
+  refine ⟨hL.noResume, hL.smcOnly, ?_⟩
+  have := hL.stack
+  cases ph with
+  | out => exact absurd rfl hph
+  | fitting p => obtain ⟨d, h1, _⟩ := this; simp [next, sstep, h1]
+  | sampling p => obtain ⟨d, h1, _⟩ := this; simp [next, sstep, h1]
+
+theorem link_step (ph ph' : Phase) (s : Sess) (op : SOp) (hL : Link ph s) (h : synStep ph op = some ph') :
+    okStepD s op = true ∧ Link ph' (next s op) := by
+  cases ph with
+  | out =>
+    have hnil : s.dstack = [] := hL.stack
+    cases op with
+    | fit path o =>
+      cases path with
+      | none =>
+        simp only [synStep, Option.some.injEq] at h; subst h
+        exact link_fit .out s none o hL (by intro p; simp) (Or.inr (target_none_of_nil s hnil))
+      | some q =>
+        cases o with
+        | true => simp [synStep] at h
+        | false =>
+          simp only [synStep, Option.some.injEq] at h; subst h
+          exact link_fit .out s (some q) false hL (by intro p; simp) (Or.inl rfl)
+    | sample k path c n =>
+      cases k with
+      | importance => simp [synStep] at h
+      | smc =>
+        cases path with
+        | none =>
+          simp only [synStep, Option.some.injEq] at h; subst h
+          exact link_sample .out s none c n hL (Or.inr (target_none_of_nil s hnil)) (by intro p hp; simp at hp)
+        | some q =>
+          simp only [synStep] at h
+          split at h
+          · rename_i hw
+            simp only [Option.some.injEq] at h; subst h
+            exact link_sample .out s (some q) c n hL (Or.inl hw) (by intro p hp; simp at hp)
+          · simp at h
+    | enter p sc =>
+      cases sc with
+      | false => simp [synStep] at h
+      | true =>
+        simp only [synStep, Option.some.injEq] at h; subst h
+        exact ⟨rfl, link_enter s p hL⟩
+    | exit => simp [synStep] at h
+    | resume p => simp [synStep] at h
+  | fitting p =>
+    cases op with
+    | fit path o =>
+      cases o with
+      | true => cases path <;> simp [synStep] at h
+      | false =>
+        have : ph' = .fitting p := by cases path <;> (simp only [synStep, Option.some.injEq] at h; exact h.symm)
+        subst this
+        exact link_fit (.fitting p) s path false hL (by intro q; simp) (Or.inl rfl)
+    | sample k path c n =>
+      cases k with
+      | importance => cases path <;> simp [synStep] at h
+      | smc =>
+        cases path with
+        | none =>
+          simp only [synStep] at h
+          split at h
+          · rename_i hw
+            simp only [Option.some.injEq] at h; subst h
+            exact link_sample (.fitting p) s none c n hL (Or.inl hw) (by intro q _; exact Or.inl rfl)
+          · simp at h
+        | some q =>
+          simp only [synStep] at h
+          split at h
+          · rename_i hw
+            simp only [Bool.and_eq_true, beq_iff_eq] at hw
+            simp only [Option.some.injEq] at h; subst h
+            obtain ⟨hw, rfl⟩ := hw
+            refine link_sample (.fitting q) s (some q) c n hL (Or.inl hw) ?_
+            intro r hr
+            simp only [Phase.fitting.injEq, reduceCtorEq, or_false] at hr
+            exact Or.inr (by rw [hr])
+          · simp at h
+    | enter q sc => simp [synStep] at h
+    | exit =>
+      simp only [synStep, Option.some.injEq] at h; subst h
+      exact ⟨rfl, link_exit _ s hL (by simp)⟩
+    | resume q => simp [synStep] at h
+  | sampling p =>
+    cases op with
+    | fit path o => simp [synStep] at h
+    | sample k path c n =>
+      cases k with
+      | importance => cases path <;> simp [synStep] at h
+      | smc =>
+        cases path with
+        | none =>
+          simp only [synStep] at h
+          split at h
+          · rename_i hw
+            simp only [Option.some.injEq] at h; subst h
+            exact link_sample (.sampling p) s none c n hL (Or.inl hw) (by intro q _; exact Or.inl rfl)
+          · simp at h
+        | some q =>
+          simp only [synStep] at h
+          split at h
+          · rename_i hw
+            simp only [Bool.and_eq_true, beq_iff_eq] at hw
+            simp only [Option.some.injEq] at h; subst h
+            obtain ⟨hw, rfl⟩ := hw
+            refine link_sample (.sampling q) s (some q) c n hL (Or.inl hw) ?_
+            intro r hr
+            simp only [reduceCtorEq, Phase.sampling.injEq, false_or] at hr
+            exact Or.inr (by rw [hr])
+          · simp at h
+    | enter q sc => simp [synStep] at h
+    | exit =>
+      simp only [synStep, Option.some.injEq] at h; subst h
+      exact ⟨rfl, link_exit _ s hL (by simp)⟩
+    | resume q => simp [synStep] at h
+
+theorem synSafeFrom_disciplined (ops : List SOp) :
+    ∀ ph s, Link ph s → SynSafeFrom ph ops = true → SafeFromD s ops = true := by
+  induction ops with
+  | nil => intro _ _ _ _; rfl
+  | cons op rest ih =>
+    intro ph s hL h
+    simp only [SynSafeFrom] at h
+    cases hs : synStep ph op with
+    | none => rw [hs] at h; exact absurd h (by simp)
+    | some ph' =>
+      rw [hs] at h
+      obtain ⟨h1, h2⟩ := link_step ph ph' s op hL hs
+      simp only [SafeFromD, Bool.and_eq_true]
+      exact ⟨h1, ih ph' _ h2 h⟩
+
+theorem link_init : Link .out {} := ⟨rfl, Or.inr (by intro pf h; simp at h), rfl⟩
+
+theorem synSafe_disciplined (ops : List SOp) (h : SynSafe ops) : Disciplined ops :=
+  synSafeFrom_disciplined ops .out {} link_init h
+
+theorem synSafe_safe (ops : List SOp) (h : SynSafe ops) : Safe ops :=
+  disciplined_safe ops (synSafe_disciplined ops h)
+
+/-- C14 on the syntactic language -/
+theorem consistent_synSafe (ops : List SOp) (h : SynSafe ops) : AllConsistent (srun {} ops) = true :=
+  consistent_partial ops (synSafe_safe ops h)
+
+/-! ### resuming -/
+
+/-- on the instance returned by `resume_from_file(p)` a run with the default path (the file itself, configuration
+    off) is safe iff it writes no checkpoint or the file's configuration names SMC -/
+theorem resume_then_sample (s s' : Sess) (p : Nat) (k : SamplerKind) (c : Bool) (n : Nat)
+    (h : stepResume s p = some s') :
+    okSample s' k none c n =
+      (!writesCkpt (effSampler s' k) c n || (getFile s.files p).cfgSampler == some .smc) := by
+  obtain ⟨hm, _, hf⟩ := resume_uses_file_flow s s' p h
+  obtain ⟨_, hd, _⟩ := resume_files s s' p h
+  have hsome : s'.memFlow.isSome = true := by
+    unfold stepResume at h
+    simp only at h
+    split at h
+    · exact absurd h (by simp)
+    · split at h
+      · exact absurd h (by simp)
+      · injection h with h; subst h; rfl
+  have ht : target s' none = some (p, false) := by simp [target, topDflt, hd]
+  have hsf : topSavedFlow s' = false := by simp [topSavedFlow, topDflt, hd]
+  obtain ⟨v, hv⟩ : ∃ v, (getFile s.files p).flow = some v := by
+    rw [hm] at hsome
+    cases hfl : (getFile s.files p).flow with
+    | none => simp [hfl] at hsome
+    | some v => exact ⟨v, rfl⟩
+  unfold okSample
+  rw [ht]
+  cases hw : writesCkpt (effSampler s' k) c n <;> simp [hsf, hf, hm, hv]
+
+/-- **resuming a good file and continuing is always safe** (whatever sampler is asked for, the one that wrote the
+    checkpoint is used, and its particles are weighted under the proposal that is in the file) -/
+theorem resume_then_sample_safe (s s' : Sess) (p : Nat) (k : SamplerKind) (c : Bool) (n : Nat)
+    (hI : AllGood s.files) (h : stepResume s p = some s') (hck : (getFile s.files p).ckpt.isSome = true) :
+    okSample s' k none c n = true ∧ effSampler s' k = .smc := by
+  obtain ⟨v, ks, hc⟩ : ∃ v ks, (getFile s.files p).ckpt = some (v, ks) := by
+    cases hc : (getFile s.files p).ckpt with
+    | none => simp [hc] at hck
+    | some vk => exact ⟨vk.1, vk.2, rfl⟩
+  obtain ⟨_, h2, h3⟩ := good_getFile _ hI p v ks hc
+  subst h3
+  refine ⟨?_, ?_⟩
+  · rw [resume_then_sample s s' p k c n h, h2]; simp
+  · have := (resume_never_mixes s s' p v .smc h
+      ((consistent_iff _).mpr (fun v' k' hk' => by
+        obtain ⟨a, b, _⟩ := good_getFile _ hI p v' k' hk'; exact ⟨a, b⟩)) hc).2.2
+    unfold effSampler
+    rw [this]
+    cases k <;> rfl
+
+/-- without a checkpoint in the file the importance sampler is safe on the resumed instance -/
+theorem resume_then_importance_safe (s s' : Sess) (p : Nat) (c : Bool) (n : Nat)
+    (h : stepResume s p = some s') (hck : (getFile s.files p).ckpt = none) :
+    okSample s' .importance none c n = true := by
+  rw [resume_then_sample s s' p .importance c n h]
+  have : s'.resumeSampler = none := by
+    unfold stepResume at h
+    simp only at h
+    split at h
+    · exact absurd h (by simp)
+    · split at h
+      · exact absurd h (by simp)
+      · injection h with h; subst h; simp [hck]
+  simp [effSampler, this, writesCkpt]
+
+/-! ### non-vacuity -/
+
+/-- refit + rerun to the same file (outside and inside a context), then resume and continue -/
+def exRefit : List SOp :=
+  [fit (some 1) false, sample smc (some 1) true 0, fit (some 1) false, sample smc (some 1) false 2,
+   enter 1 true, fit none false, sample smc none true 0, sample smc (some 1) true 0, SOp.exit,
+   resume 1, sample importance none true 0]
+
+example : Safe exRefit := by decide
+example : Disciplined exRefit := by decide
+example : SynSafe (exRefit.take 9) := by decide
+example : AllConsistent (srun {} exRefit) = true := consistent_partial _ (by decide)
+/-- three different proposals were fitted and the file ends with the last one, its checkpoint weighted under it -/
+example : getFile (srun {} exRefit).files 1
+    = { flow := some 3, hasConfig := true, cfgSampler := some smc, ckpt := some (3, smc) } := by decide
+
+/-- the usage documented in docs/checkpointing.rst: run in a context, crash, resume with the default sampler inside a
+    context on the same file, crash again, resume again -/
+def exDocumented : List SOp :=
+  [fit none false, enter 1 true, sample smc none false 2, SOp.exit, resume 1, enter 1 true,
+   sample importance none false 1, SOp.exit, resume 1, sample importance none true 0]
+
+example : Safe exDocumented := by decide
+example : Disciplined exDocumented := by decide
+
+/-- safe but not disciplined: the refit inside the context is harmless because the context is left before sampling -/
+def exUndisciplined : List SOp :=
+  [enter 1 true, fit none false, sample smc none true 0, fit none false, SOp.exit, sample smc (some 1) true 0]
+
+example : Safe exUndisciplined ∧ ¬ Disciplined exUndisciplined := by decide
+
+/-- the hypotheses of the single-step theorems are met by a concrete state -/
+example : (stepFit {} none false).memFlow = some 1 ∧ (stepFit {} none false).dstack = [] := by decide
+
+/-- the witnesses are not safe -/
+example : ¬ Safe [fit none false, sample smc (some 1) true 0, fit (some 1) true] := by decide
+example : ¬ Safe [fit none false, sample smc (some 1) true 0, sample importance (some 1) true 0] := by decide
+example : ¬ Safe [fit none false, enter 1 false, sample smc none true 0] := by decide
 
 end C14
